@@ -125,7 +125,8 @@ def modelledFns : List String :=
    "length", "startsWith", "endsWith", "contains", "indexOf", "substring", "toChars", "replace",
    "abs", "ceiling", "floor", "truncate",
    "toString", "toInteger", "toDecimal", "toBoolean", "convertsToString", "convertsToInteger", "convertsToDecimal", "convertsToBoolean",
-   "toDate", "toDateTime", "toTime", "toQuantity", "convertsToDate", "convertsToDateTime", "convertsToTime", "convertsToQuantity"]
+   "toDate", "toDateTime", "toTime", "toQuantity", "convertsToDate", "convertsToDateTime", "convertsToTime", "convertsToQuantity",
+   "upper", "lower", "round", "now", "today", "timeOfDay"]
 
 def argCount : Ex → Nat
   | .argCons _ r => argCount r + 1
@@ -255,6 +256,53 @@ def mathOn (f : MathFn) (input : List Val) : Res (List Val) :=
   | [v] => mathFn f v
   | _ => .err "not-singleton"
 
+/-- `strings.ToUpper` / `strings.ToLower` on the ASCII letters; Go maps every other character through the
+    Unicode case tables, which are not modelled: a receiver with a character beyond U+007F is `unmodelled`
+    (FP.Model.Strings.mapChars with the table supplied by the harness is the per-feature model, C14) -/
+def asciiUpper (c : Char) : Char := if 'a' ≤ c ∧ c ≤ 'z' then Char.ofNat (c.toNat - 32) else c
+def asciiLower (c : Char) : Char := if 'A' ≤ c ∧ c ≤ 'Z' then Char.ofNat (c.toNat + 32) else c
+def isAscii (s : Str) : Bool := s.all fun c => c.toNat < 128
+
+/-- `Upper` / `Lower` (impl/strings.go): several items are an error, none is empty, the item must be a String -/
+def caseOn (f : Char → Char) (input : List Val) : Res (List Val) :=
+  match input with
+  | [] => .ok []
+  | [_] => (toStr input).bind fun b => (chars? b).bind fun s =>
+      if isAscii s then .ok [strVal (s.map f)] else .err "UNMODELLED"
+  | _ => .err "not-singleton"
+
+/-- `Round` on a single item once the precision is known: a Decimal whose exponent already fits is handed
+    back as it is, any other Decimal goes through `Round(precision)` (half away from zero); an Integer becomes
+    the Decimal of the same value; anything else is an error -/
+def roundTo (p : Int) (d : Dec) : Dec := if -d.exp ≤ p then d else d.round p
+def roundVal (p : Int) : Val → Res (List Val)
+  | .dec d => .ok [.dec (roundTo p d)]
+  | .int i => .ok [.dec (Dec.ofInt i)]
+  | _ => .err "not-a-number"
+
+/-- the name under which `finish` hands the clock reading to the evaluation: the text
+    `ctx.Now.Format("2006-01-02T15:04:05.000Z07:00")` (an input of the model; `time.Format` is trusted).
+    The name starts with U+0000, which no environment of the correspondence stream uses. -/
+def clockKey : String := "\x00now"
+
+def isClockFn (name : String) : Bool := name == "now" || name == "today" || name == "timeOfDay"
+
+/-- `Now` / `Today` / `TimeOfDay` (impl/utility.go): the clock reading of the Context — read once, when the
+    evaluation starts — rendered with milliseconds and its own offset and read back by the literal parsers;
+    the input collection is never looked at -/
+def clockFn (name : String) (env : Env) : Res (List Val) :=
+  match env.find? (fun p => p.1 == clockKey) with
+  | some (_, [.str b]) =>
+    (chars? b).bind fun t =>
+      let text : Str :=
+        if name == "now" then '@' :: t
+        else if name == "today" then '@' :: t.take 10
+        else '@' :: 'T' :: (t.drop 11).take 12
+      match Temporal.literal (String.ofList text) with
+      | some v => .ok [v]
+      | none => .err "clock-not-representable"
+  | _ => .err "UNMODELLED"
+
 def anyIs (b : Bool) (input : List Val) : Bool := input.any (· == .bool b)
 
 /-- `Name()` of a System value -/
@@ -343,6 +391,9 @@ def apply0 (name : String) (input : List Val) : Res (List Val) :=
   | "ceiling" => mathOn .ceiling input
   | "floor" => mathOn .floor input
   | "truncate" => mathOn .truncate input
+  | "round" => (match input with | [] => .ok [] | [v] => roundVal 0 v | _ => .err "not-singleton")
+  | "upper" => caseOn asciiUpper input
+  | "lower" => caseOn asciiLower input
   | "toString" => convOn .string input
   | "toInteger" => convOn .integer input
   | "toDecimal" => convOn .decimal input
@@ -384,6 +435,12 @@ def apply1 (name : String) (a : Ev) (input : List Val) : Res (List Val) :=
   | "substring" =>
     onString input fun s => (a input).bind fun av => intArg1 av fun st =>
       .ok (match substring s st none with | some r => [strVal r] | none => [])
+  | "round" =>
+    (match input with
+     | [] => .ok []
+     | [v] => (a input).bind fun av => (toInt32 av).bind fun p =>
+         if p < 0 then .err "negative-precision" else roundVal p v
+     | _ => .err "not-singleton")
   | _ => .err "UNMODELLED"
 
 def apply2 (name : String) (a b : Ev) (input : List Val) : Res (List Val) :=
@@ -438,7 +495,7 @@ def eval (env : Env) : E → List Val → Res (List Val)
   | .argNil, _ => .err "UNMODELLED"
   | .argCons _ _, _ => .err "UNMODELLED"
   | .fn "unimplemented!" _, _ => .err "not-implemented"
-  | .fn name .argNil, input => apply0 name input
+  | .fn name .argNil, input => if isClockFn name then clockFn name env else apply0 name input
   | .fn name (.argCons a .argNil), input => apply1 name (eval env a) input
   | .fn name (.argCons a (.argCons b .argNil)), input => apply2 name (eval env a) (eval env b) input
   | .fn name (.argCons a (.argCons b (.argCons c .argNil))), input =>
